@@ -34,7 +34,8 @@ def gen_cfg(rng, tier: str, big: bool = False, backing: str | None = "maybe") ->
     l2_size = cs // (16 if extl2 else 8)
     r = rng.random()
     if big:
-        nclusters = l2_size * rng.randint(3, 300) + rng.randrange(l2_size)
+        nclusters = l2_size * rng.choice([rng.randint(3, 300), rng.randint(300, 40000)]) + rng.randrange(l2_size)
+        nclusters = min(nclusters, (60 << 40) >> cb)
     elif r < 0.15 and cb <= 12:
         nclusters = l2_size * rng.choice([129, 130, 140]) + rng.randrange(l2_size)  # more L2 tables than the cache holds
     elif r < 0.5:
